@@ -287,3 +287,91 @@ class ModeRules:
         rec.ob('R10.c', 'R10.c@%s::counter-increment' % fkey(f), (False if bad else (None if und else True)), where,
                '128-bit big-endian counter + 1 for all 17 carry patterns (bytes 15..k+1 = 0xFF, byte k < 0xFF, rest free; and all 0xFF): %s' % (
                    'yes' if ok else ('NO: pattern k=%d: %s' % bad[0] if bad else 'undecided: pattern k=%d: %s' % und[0])))
+
+
+def stream_isolation(self):
+    """R03.c: two stream objects made by the same factory share no mutable storage: the sets of locations a step writes
+    (apart from the caller's block) are disjoint, so concurrent workers cannot interfere through their cipher objects."""
+    prog, rec = self.prog, self.rec
+    n = 0
+    for enc in (True, False):
+        for typ in range(5):
+            ts = TSX()
+            I = TermInterp(prog, ts, models=dict(models.STD_MODELS))
+            st = interp.State()
+            for i in range(16):
+                st.mem[(KEY, (i,))] = ('tb', ts.v('k%d' % i))
+            for i in range(40):
+                st.mem[(IVSRC, (i,))] = ('tb', ts.v('iv%d' % i))
+            frec = prog.records[self.Fq]
+            for f in frec['fields']:
+                if f['n'] == 'key':
+                    st.mem[(FAC, (f['d'][2:],))] = P(KEY, (0,))
+                elif f['n'] == 'iv':
+                    st.mem[(FAC, (f['d'][2:],))] = P(IVSRC, (0,))
+            # the factory object itself may own members (run its constructor when it has one with a body)
+            objs = []
+            cur = st
+            okmk = True
+            for k in range(2):
+                # distinct call sites are needed for distinct allocation identities: wrap by context
+                fr = I.start_frame(self.factory)
+                I._decl_is_ref = getattr(I, '_decl_is_ref', {})
+                I.index_ref_decls()
+                res = I.run(self.factory, cur, this=P(FAC, ()), args=[C(1 if enc else 0), C(typ)])
+                if len(res) != 1 or res[0][1][0] != 'p':
+                    okmk = False
+                    break
+                cur, p = res[0]
+                # give the second object its own identity: relocate the first to a fresh name
+                if k == 0:
+                    old = p[1]
+                    new = ('stream-A',)
+                    for key in [kk for kk in cur.mem if kk[0] == old]:
+                        cur.mem[(new, key[1])] = cur.mem.pop(key)
+                    for key, v in list(cur.mem.items()):
+                        if v[0] == 'p' and v[1] == old:
+                            cur.mem[key] = P(new, v[2])
+                    p = P(new, p[2])
+                objs.append(p)
+            if not okmk:
+                continue
+            wsets = []
+            for k, p in enumerate(objs):
+                obj = (p[1], p[2])
+                dyn = cur.mem.get((obj[0], obj[1] + ('$dyn',)))
+                f = prog.functions.get(prog.resolve_virtual(next(x['id'] for x in self.base['methods'] if x['n'] == 'runcry'), dyn[1])) if dyn else None
+                if f is None:
+                    okmk = False
+                    break
+                w = set()
+
+                class Lst:
+                    def on_store(self, I3, st3, loc, val, node):
+                        if loc is not None and not (isinstance(loc[0], tuple) and loc[0][0] in ('L', 'tmp')):
+                            w.add(loc[0])
+                I2 = TermInterp(prog, ts, listeners=[Lst()], models=dict(models.STD_MODELS))
+                log = []
+                I2.models.update(self.step_model(ts, log))
+                s2 = cur.copy()
+                B = ('ext', 'block%d' % k)
+                for i in range(16):
+                    s2.mem[(B, (i,))] = ('tb', ts.v('p%d_%d' % (k, i)))
+                I2.run(f, s2, this=P(*obj), args=[P(B, (0,))])
+                # the uninterpreted cipher step writes its own scratch: count the object it belongs to
+                for e in log:
+                    if e[0] in ('E', 'D'):
+                        w.add(('cipher-scratch', e[1]))
+                w.discard(B)
+                wsets.append(w)
+            if not okmk:
+                continue
+            n += 1
+            shared = wsets[0] & wsets[1]
+            rec.ob('R03.c', 'R03.c@%s::streams-share-no-mutable-state' % self.Fq, not shared, '%s:%s' % (self.factory['file'], self.factory['line']),
+                   'factory(%s,%d): two streams from one factory write %s' % ('enc' if enc else 'dec', typ,
+                                                                          'disjoint storage' if not shared else 'the SAME storage %s (unsynchronised between worker threads)' % sorted(map(str, shared))[:2]))
+    rec.count('R03.c stream pairs', n, 10)
+
+
+ModeRules.isolation = stream_isolation
